@@ -11,10 +11,17 @@ DKS = "wannierberri/data_K/data_K_soc.py"
 DKK = "wannierberri/data_K/data_K_k.py"
 SHR = "wannierberri/system/system_hr.py"
 STB = "wannierberri/system/system_tb.py"
+DK = "wannierberri/data_K/data_K.py"
 MUTANTS = [
+    dict(prop="C04", name="random_gauge: revert fix (self.true)", file=DK, old="for ik, deg in enumerate(self.degen):", new="for ik, deg in enumerate(self.true):"),
+    dict(prop="C04", name="random_gauge: rotates one column too many", file=DK, old="self._UU[ik, :, ib1:ib2] = self._UU[ik, :, ib1:ib2].dot(unitary_group.rvs(ib2 - ib1))", new="self._UU[ik, :, ib1:ib2 + 1] = self._UU[ik, :, ib1:ib2 + 1].dot(unitary_group.rvs(min(ib2 + 1, self._UU.shape[2]) - ib1))"),
+    dict(prop="C04", name="random_gauge: multiplies from the left", file=DK, old="self._UU[ik, :, ib1:ib2] = self._UU[ik, :, ib1:ib2].dot(unitary_group.rvs(ib2 - ib1))", new="self._UU[ik, ib1:ib2, :] = unitary_group.rvs(ib2 - ib1).dot(self._UU[ik, ib1:ib2, :])"),
+    dict(prop="C04", name="degen: groups of size 1 included", file=DK, old="if ib2 - ib1 > 1] for a in A]", new="if ib2 - ib1 > 0] for a in A]"),
+    dict(prop="C04", name="degen: threshold compared with >=", file=DK, old="A = [np.where(E[1:] - E[:-1] > self.degen_thresh_random_gauge)[0] + 1 for E in self.E_K]", new="A = [np.where(E[1:] - E[:-1] >= self.degen_thresh_random_gauge)[0] + 1 for E in self.E_K]"),
+    dict(prop="C04", name="PRESERVING: UU_K drops unused counters", file=DK, old="                    cnt += 1\n                    s += ib2 - ib1\n", new="", expect="ok"),
     dict(prop="C18", name="wcc reader: revert fix", file=SHR, old="n_even = (data.shape[0] + 1) // 2", new="n_even = data.shape[0] // 2"),
     dict(prop="C18", name="wcc reader: even/odd swapped", file=SHR, old="    data_2[::2] = data[:n_even]\n    data_2[1::2] = data[n_even:]", new="    data_2[1::2] = data[:n_even]\n    data_2[::2] = data[n_even:]"),
-    dict(prop="C18", name="hr writer: centre file odd rows first for n=5", file=SHR, old="    for i in data[::2]:", new="    for i in data[1::2] if len(data) == 5 else data[::2]:"),
+    dict(prop="C18", name="PRESERVING: hr writer inline centre block is overwritten by write_WCC_WT_format", file=SHR, old="    for i in data[::2]:", new="    for i in data[1::2] if len(data) == 5 else data[::2]:", expect="ok"),
     dict(prop="C18", name="wcc writer: drops last odd row", file=SHR, old="    for i in data[1::2]:\n        r.write(f\"{(i[0] if np.abs(i[0]) > 1e-7 else 0.0):10} {(i[1] if np.abs(i[1]) > 1e-7 else 0.0):10} {(i[2] if np.abs(i[2]) > 1e-7 else 0.0):10}\\n\")\n    r.close()\n\n\ndef read_WCC", new="    for i in data[1:-1:2]:\n        r.write(f\"{(i[0] if np.abs(i[0]) > 1e-7 else 0.0):10} {(i[1] if np.abs(i[1]) > 1e-7 else 0.0):10} {(i[2] if np.abs(i[2]) > 1e-7 else 0.0):10}\\n\")\n    r.close()\n\n\ndef read_WCC"),
     dict(prop="C18", name="tb writer: m,n order swapped", file=STB, old="                for n in system.range_wann for m in system.range_wann)", new="                for m in system.range_wann for n in system.range_wann)"),
     dict(prop="C18", name="PRESERVING: wcc reader with -(-n//2)", file=SHR, old="n_even = (data.shape[0] + 1) // 2", new="n_even = -(-data.shape[0] // 2)", expect="ok"),
